@@ -3,6 +3,7 @@ CONSTANTS
   devs = {}
   Total <- RealTotal
   TooLarge <- RealTooLarge
+  Skip <- RealSkip
 INIT TInit
 NEXT TNext
 INVARIANT Done
